@@ -169,7 +169,7 @@ def r3_siblings(cx):
 def r4_stream_read(cx):
     F = cx.F
     f = F.one(impl_self="ByteStream", item="read", trait="Read", closure=False)
-    b = F.body(f)
+    b = F.deep_body(f, only=r"byte_stream::ByteStream::")   # the stream's own accessors (size_left, ...) are transparent
     rd = b.calls(r"Source>::read$")
     cx.ob("R4", "R4/read/one-source-read", len(rd) == 1, f, "ByteStream::read calls Source::read exactly once (found %d)" % len(rd))
     if len(rd) == 1:
